@@ -626,6 +626,14 @@ def slice_value(I: Any, base: Term, lo: Optional[Term], hi: Optional[Term], st: 
 def index_value(I: Any, base: Term, idx: Term, st: Any, ctx: Any, node: ast.AST) -> Term:
     where = ctx.loc(node)
     i = as_const_int(idx)
+    if base[0] == "mapobj" and len(base) == 4 and base[3] == "list":
+        # list built by a comprehension over a symbolic collection: an element of it
+        st.may_raise("IndexError", ("emptyindex", base, idx), where)
+        return ("elemof", base, idx)
+    if base[0] == "app" and base[1] == "list" and len(base) == 3 and isinstance(base[2], tuple) and base[2][0] == "filterobj":
+        fo = base[2]
+        st.may_raise("IndexError", ("nomatch", fo[1], fo[2], idx), where)
+        return ("elemof", fo[2], ("where", fo[1], idx))
     if base[0] in ("tuple", "clist"):
         if isinstance(i, int):
             if -len(base[1]) <= i < len(base[1]):
@@ -723,6 +731,8 @@ def membership(I: Any, x: Term, coll: Term, st: Any, ctx: Any, node: ast.AST) ->
         else:
             return ("cmp", "in", x, ("keysof", ("sym", I.describe(coll, st), "any")))
     if items is None:
+        if coll[0] == "mapobj" and len(coll) == 4:
+            return ("cmp", "in", x, coll)
         return None
     maybe = []
     for it in items:
@@ -1045,6 +1055,8 @@ def call_method(I: Any, recv: Term, name: str, args: List[Term], kwargs: Dict[st
             return ("tuple", tuple(v for _, v in recv[1]))
         if name == "items":
             return ("tuple", tuple(("tuple", kv) for kv in recv[1]))
+    if recv[0] == "mapobj" and len(recv) == 4 and recv[3] == "list" and name in ("sort", "reverse"):
+        return c(None)  # in-place reordering: membership (all these rules use) is unchanged
     if recv[0] in ("map", "mapobj", "filterobj", "chunks"):
         return app("." + name, [recv] + args)
     return I.external_call(f"{T.show(recv)}.{name}", args, kwargs, st, ctx, node, awaited)
